@@ -1199,13 +1199,14 @@ impl<Alloc: BrotliAlloc> BrotliEncoderStateStruct<Alloc> {
         } else {
             true
         };
-        let max_dict_size: usize = (1usize << self.params.lgwin).wrapping_sub(16);
         DestroyHasher(&mut self.m8, &mut self.hasher_); // the index being replaced goes back to its allocator
         self.hasher_ = opt_hasher;
         let mut dict_size: usize = size;
         if !self.ensure_initialized() {
             return;
         }
+        // only now is lgwin the clamped window the stream declares
+        let max_dict_size: usize = (1usize << self.params.lgwin).wrapping_sub(16);
         if dict_size == 0 || self.params.quality == 0 || self.params.quality == 1 {
             self.params.catable = true; // don't risk a too-short dictionary
             self.params.appendable = true; // don't risk a too-short dictionary
